@@ -7,6 +7,7 @@
   and `enc` is inverted by the independent parser model on every value it represents faithfully.
 -/
 import CosetProofs.Roundtrip.BuiltOther
+import CosetProofs.Ties
 namespace Coset.Props.C11
 open Coset Coset.Cbor Coset.Spec
 
@@ -162,6 +163,15 @@ example : (match ProtectedHeader.cborBstr (.mk none (.mk none [] none [] [] [] [
     | .ok (.bytes b) => b == [0xa1, 0x18, 0x64, 0x01]
     | _ => false) = true := by decide +kernel
 
+
+/-! ### ties to the source text (regenerated on every run, compared in the kernel with the transcribed tree) -/
+/-- the order in which every array-shaped `to_cbor_value` emits its fields. -/
+theorem tie_emit_order : Coset.Ties.genEmitOrders = Coset.Ties.pinnedEmitOrders := Coset.Ties.emit_order
+/-- `Header::is_empty` tests every field of `struct Header`. -/
+theorem tie_header_is_empty : Coset.Gen.headerFields = Coset.Pinned.headerFields ∧ Coset.Gen.headerIsEmptyTests = Coset.Pinned.headerIsEmptyTests := ⟨Coset.Ties.header_fields, Coset.Ties.header_is_empty_tests⟩
+
+#print axioms tie_emit_order
+#print axioms tie_header_is_empty
 #print axioms header_emits
 #print axioms typed_entries
 #print axioms typed_labels_once
